@@ -117,6 +117,23 @@ impl BytesMut {
     { unimplemented!() }
 }
 
+/// anything that derefs to a byte slice (`&BytesMut`, `&[u8]`, `&buf[a..]`)
+pub trait ByteView { spec fn bv(&self) -> Seq<u8>; }
+impl ByteView for BytesMut { open spec fn bv(&self) -> Seq<u8> { self@ } }
+impl ByteView for [u8] { open spec fn bv(&self) -> Seq<u8> { self@ } }
+
+// `&buf[k..]` (slicing through Deref<Target=[u8]>; panics when k > len)
+impl vstd::std_specs::core::IndexSpecImpl<core::ops::RangeFrom<usize>> for BytesMut {
+    open spec fn index_req(&self, r: &core::ops::RangeFrom<usize>) -> bool { r.start <= self@.len() }
+}
+impl core::ops::Index<core::ops::RangeFrom<usize>> for BytesMut {
+    type Output = [u8];
+    #[verifier::external_body]
+    fn index(&self, r: core::ops::RangeFrom<usize>) -> (o: &[u8])
+        ensures o@ == self@.subrange(r.start as int, self@.len() as int)
+    { unimplemented!() }
+}
+
 /// memchr::memchr: index of the first occurrence
 #[verifier::external_body]
 pub fn memchr(needle: u8, hay: &BytesMut) -> (r: Option<usize>)
